@@ -252,7 +252,7 @@ func (in *Interp) load(l Loc) Value {
 }
 
 func (in *Interp) storeCell(c *Cell, v Value) {
-	if c.Epoch < in.pathEpoch {
+	if c.Epoch < in.pathEpoch && !in.initMode {
 		old := c.V
 		in.journal = append(in.journal, func() { c.V = old })
 	}
